@@ -1,6 +1,6 @@
 (* AioTheorems: the statements used by Properties_C13.v, assembled from AioLemmas / AioRoundtrip / AioIntegrity / AioProgress. *)
 From Coq Require Import ZArith NArith List Bool Lia.
-From LT Require Import gen_Consts CodecModel CodecLemmas AioModel AioLemmas AioRoundtrip AioIntegrity.
+From LT Require Import gen_Consts CodecModel CodecLemmas AioModel AioLemmas AioRoundtrip AioIntegrity AioProgress.
 Import ListNotations.
 Local Open Scope Z_scope.
 
@@ -141,4 +141,44 @@ Proof.
   destruct (stream_integrity P c iv iv' ms recs s OK IL IL' IVok A NN T NF) as [n Hn].
   rewrite <- F, (frag_invariance _ _ _ _ _ _ _ (ok_blk _ OK) R) in Hn.
   eapply prefix_of_prefix. exact Hn.
+Qed.
+
+(* ---- progress ------------------------------------------------------------------------------------ *)
+Lemma fed_app a b : fed (a ++ b) = fed a ++ fed b.
+Proof. induction a as [|[ch|] r IH]; cbn [fed app]; [reflexivity| |exact IH]. now rewrite IH, app_assoc. Qed.
+Lemma fed_calls n : fed (repeat Call n) = [].
+Proof. induction n; [reflexivity|exact IHn]. Qed.
+Lemma delivered_app a b : delivered (a ++ b) = delivered a ++ delivered b.
+Proof. induction a as [|o r IH]; [reflexivity|]. cbn [app]. rewrite !delivered_cons, IH. now rewrite app_assoc. Qed.
+
+(* after any schedule, more than 3|pipe| + |buf| + 1 further calls leave nothing undelivered -- or the receive buffer is
+   full of bytes without a complete record while more are waiting ("read buffer exceeded") *)
+Theorem eventually_settled P c nonce evs os st pipe n os2 st2 p2 : (0 < blklen P)%nat ->
+  run P c nonce rstate0 [] evs = (os, st, pipe) ->
+  (mu st pipe < n)%nat ->
+  run P c nonce st pipe (repeat Call n) = (os2, st2, p2) ->
+  stream_deliveries P c nonce st2 p2 = [] \/ stuck st2 p2.
+Proof.
+  intros B R M R2.
+  destruct (frag_invariant P c nonce evs rstate0 [] os st pipe (wf0 P c B) R) as [_ W].
+  pose proof (run_flag_ok P c nonce evs _ _ _ _ _ (flag_ok0 P c) R) as FO.
+  exact (settle P c nonce n st pipe os2 st2 p2 W FO M R2).
+Qed.
+
+Theorem roundtrip_eventually P c iv ms w sst evs os st pipe n os2 st2 p2 :
+  prims_ok P -> length iv = blklen P ->
+  (encr c = true -> Forall (fun m => 0 <= m) ms) ->
+  send_all P c iv (sstate0 c iv) ms = Some (w, sst) ->
+  fed evs = w ->
+  run P c iv rstate0 [] evs = (os, st, pipe) ->
+  (mu st pipe < n)%nat ->
+  run P c iv st pipe (repeat Call n) = (os2, st2, p2) ->
+  delivered os ++ delivered os2 = ms \/ stuck st2 p2.
+Proof.
+  intros OK IL NN S F R M R2.
+  pose proof (run_app P c iv evs (repeat Call n) _ _ _ _ _ _ _ _ R R2) as RA.
+  assert (FA : fed (evs ++ repeat Call n) = w) by (rewrite fed_app, fed_calls, app_nil_r; exact F).
+  pose proof (channel_roundtrip P c iv ms w sst _ _ _ _ OK IL NN S FA RA) as H.
+  destruct (eventually_settled P c iv evs os st pipe n os2 st2 p2 (ok_blk _ OK) R M R2) as [D|St]; [|now right].
+  left. rewrite D, app_nil_r, delivered_app in H. exact H.
 Qed.
